@@ -62,10 +62,20 @@ pub fn clean(
 ) -> String {
     let (delimiter_start, delimiter_end) = delimiters;
     let tokens = tokenizer::tokenize(&content, &delimiter_start, &delimiter_end);
+    #[cfg(feature = "verif-hooks")]
+    crate::verif_hooks::emit("Tokens", crate::verif_hooks::token_rows(&tokens), None);
 
     let parsed = parser::parse(&tokens);
+    #[cfg(feature = "verif-hooks")]
+    crate::verif_hooks::emit("Tree", crate::verif_hooks::tree_rows(&parsed), None);
     let remover = build_remover(config, content.clone());
     let (removed, markers) = remover.remove(parsed, &content);
+    #[cfg(feature = "verif-hooks")]
+    crate::verif_hooks::emit(
+        "Markers",
+        crate::verif_hooks::marker_rows(&markers),
+        Some(removed.clone()),
+    );
 
     let removed_pos = remover::get_removed_pos(&markers);
     let formatter = build_formatters();
@@ -84,14 +94,24 @@ pub fn list(
 ) -> Result<String, ListError> {
     let (delimiter_start, delimiter_end) = delimiters;
     let tokens = tokenizer::tokenize(&content, &delimiter_start, &delimiter_end);
+    #[cfg(feature = "verif-hooks")]
+    crate::verif_hooks::emit("Tokens", crate::verif_hooks::token_rows(&tokens), None);
 
     let parsed = parser::parse(&tokens);
+    #[cfg(feature = "verif-hooks")]
+    crate::verif_hooks::emit("Tree", crate::verif_hooks::tree_rows(&parsed), None);
     let remover = build_remover(config, content.clone());
     let markers: Vec<_> = remover
         .build_remove_marker(&parsed)
         .into_iter()
         .map(|v| (v, true))
         .collect();
+    #[cfg(feature = "verif-hooks")]
+    crate::verif_hooks::emit(
+        "MarkersAll",
+        crate::verif_hooks::marker_all_rows(&markers),
+        None,
+    );
     let line_map = build_line_map(&content);
 
     match format {
@@ -109,10 +129,20 @@ pub fn list_all(
 ) -> Result<String, ListError> {
     let (delimiter_start, delimiter_end) = delimiters;
     let tokens = tokenizer::tokenize(&content, &delimiter_start, &delimiter_end);
+    #[cfg(feature = "verif-hooks")]
+    crate::verif_hooks::emit("Tokens", crate::verif_hooks::token_rows(&tokens), None);
 
     let parsed = parser::parse(&tokens);
+    #[cfg(feature = "verif-hooks")]
+    crate::verif_hooks::emit("Tree", crate::verif_hooks::tree_rows(&parsed), None);
     let remover = build_remover(config, content.clone());
     let markers = remover.build_remove_marker_all(&parsed);
+    #[cfg(feature = "verif-hooks")]
+    crate::verif_hooks::emit(
+        "MarkersAll",
+        crate::verif_hooks::marker_all_rows(&markers),
+        None,
+    );
     let line_map = build_line_map(&content);
 
     match format {
